@@ -261,7 +261,15 @@ impl Verify for QuantizedParameters {
     fn verify(&self) -> Result<(), VerifyError> {
         verify_range!("order", self.order(), ..=MAX_LPC_ORDER)?;
         verify_range!("shift", self.shift(), MIN_LPC_SHIFT..=MAX_LPC_SHIFT)?;
-        verify_range!("precision", self.precision(), ..=MAX_LPC_PRECISION)?;
+        verify_range!("precision", self.precision(), 1..=MAX_LPC_PRECISION)?;
+        let limit = 1i32 << (self.precision() - 1);
+        for (i, c) in self.coefs().iter().enumerate() {
+            verify_true!(
+                "coefs[{i}]",
+                (-limit..limit).contains(&i32::from(*c)),
+                "must be representable with `precision` bits"
+            )?;
+        }
         Ok(())
     }
 }
